@@ -392,7 +392,7 @@ func (c *EvalCtx) index(v *EIndex) SV {
 	switch u := x.typ.Underlying().(type) {
 	case *types.Slice:
 		s := c.value(x)
-		a := &Addr{kind: aElem, root: sliceArr(s), idx: app(SInt, "+", sliceOff(s), c.value(i)), rootT: u.Elem(), typ: u.Elem()}
+		a := &Addr{kind: aElem, root: sliceArr(s), idx: ixT(sliceOff(s), c.value(i)), rootT: u.Elem(), typ: u.Elem()}
 		if isStruct(u.Elem()) {
 			return SV{addr: a, typ: u.Elem()}
 		}
@@ -850,6 +850,11 @@ func (c *EvalCtx) call(v *ECall) SV {
 			sfail("apply: multi-result callbacks are not supported")
 		}
 		return SV{t: r.T, typ: r.typ}
+	case "at":
+		// at(a, off, i): element i of the slice view (a, off) of a backing array; the index is built like
+		// the index of a real slice element (see ixT), so facts stated with at() and loads in the code meet
+		a := arg(0)
+		return SV{t: sel(c.value(a), ixT(argT(1), argT(2)))}
 	case "allocmax":
 		return goInt(c.x.ghostInt(c.st, "alloc.max"))
 	case "arr":
